@@ -160,7 +160,8 @@ def make_features(specs):
     out = []
     for i, s in enumerate(specs):
         out.append(Feature(seqid=s["seqid"], source=s.get("source", "src"), featuretype=s["ft"], start=s["start"], end=s["end"],
-                           score=".", strand=s["strand"], frame=s.get("frame", "."), attributes={"ID": ["in%d" % i]}, id="in%d" % i))
+                           score=".", strand=s["strand"], frame=s.get("frame", "."), attributes={"ID": ["in%d" % i]}, id="in%d" % i,
+                           extra=list(s.get("extra") or [])))
     return out
 
 
@@ -173,10 +174,14 @@ def snapshot_outputs(outs):
     return snap
 
 
-def compare_merge(db, specs, feats, cname, what="merge"):
+def compare_merge(db, specs, feats, cname, what="merge", crit_form="list"):
     """Run db.merge on feats and compare with the reference; -> (Failure | None, outputs snapshot)."""
     before = [str(f) for f in feats]
-    outs = snapshot_outputs(list(db.merge(feats, merge_criteria=lib_criteria(cname))))
+    crit = lib_criteria(cname)
+    if isinstance(crit, list) and crit_form != "list":
+        # any iterable of callbacks is accepted, also one that can be walked only once
+        crit = {"tuple": tuple(crit), "generator": (c for c in crit), "iter": iter(crit)}[crit_form]
+    outs = snapshot_outputs(list(db.merge(feats, merge_criteria=crit)))
     ref = ref_merge(specs, CRITERIA[cname][1])
     ident = dict((id(f), i) for i, f in enumerate(feats))
     seen = {}
@@ -333,14 +338,16 @@ class RandomLeg(object):
                 s = draw(st.integers(1, 60))
                 specs.append({"seqid": draw(st.sampled_from(["chr1", "chr1", "chr2"])), "ft": draw(st.sampled_from(["exon", "exon", "CDS"])),
                               "strand": draw(st.sampled_from(["+", "+", "-"])), "start": s, "end": s + draw(st.integers(0, 15)),
-                              "source": draw(st.sampled_from(["a", "b"])), "frame": draw(st.sampled_from([".", "0"]))})
+                              "source": draw(st.sampled_from(["a", "b"])), "frame": draw(st.sampled_from([".", "0"])),
+                              "extra": draw(st.sampled_from([[], [], [], ["x"], ["y", "x"], ["z"]]))})
             order = draw(st.sampled_from(["grouped", "start", "arbitrary"]))
             if order == "grouped":
                 specs.sort(key=lambda s: (s["seqid"], s["ft"], s["strand"], s["start"]))
             elif order == "start":
                 specs.sort(key=lambda s: s["start"])
             return {"specs": specs, "order": order, "criteria": draw(st.sampled_from(sorted(CRITERIA))),
-                    "second": draw(st.sampled_from(sorted(CRITERIA))), "generator": draw(st.booleans())}
+                    "second": draw(st.sampled_from(sorted(CRITERIA))), "generator": draw(st.booleans()),
+                    "crit_form": draw(st.sampled_from(["list", "list", "tuple", "generator", "iter"]))}
 
         return case()
 
@@ -354,7 +361,7 @@ class RandomLeg(object):
         db = tiny_db()
         specs = case["specs"]
         feats = make_features(specs)
-        f, outs1 = compare_merge(db, specs, feats, case["criteria"])
+        f, outs1 = compare_merge(db, specs, feats, case["criteria"], crit_form=case.get("crit_form", "list"))
         if f:
             return f
         if case["order"] == "grouped" and case["criteria"] == "default":
